@@ -62,6 +62,7 @@ func (h *hookSub) Close() error {
 
 type lcHandler struct {
 	name, topic string
+	out         string
 	sub         *hookSub
 	ssub        *vlib.Sub // nil with GoChannel
 	pub         *vlib.Pub
@@ -97,9 +98,10 @@ func newLC(id string, w *world, timeout time.Duration, useGC bool) (*lc, error) 
 
 func (l *lc) openGate() { l.once.Do(func() { close(l.gate) }) }
 
-// add registers handler number n. before/after may be nil; the order of successful Subscribe calls is always recorded.
-func (l *lc) add(n int, before func(h *lcHandler, call int) error, after func(h *lcHandler)) *lcHandler {
-	h := &lcHandler{name: fmt.Sprintf("%s/h%d", l.id, n), topic: fmt.Sprintf("%s/in%d", l.id, n), pub: &vlib.Pub{Name: fmt.Sprintf("%s-%d", l.id, n)}}
+// mk builds the ends of handler number n without registering it. before/after may be nil; the order of successful
+// Subscribe calls is always recorded.
+func (l *lc) mk(n int, before func(h *lcHandler, call int) error, after func(h *lcHandler)) *lcHandler {
+	h := &lcHandler{name: fmt.Sprintf("%s/h%d", l.id, n), topic: fmt.Sprintf("%s/in%d", l.id, n), out: fmt.Sprintf("%s/out%d", l.id, n), pub: &vlib.Pub{Name: fmt.Sprintf("%s-%d", l.id, n)}}
 	var inner message.Subscriber
 	if l.useGC {
 		inner = l.ps
@@ -126,7 +128,13 @@ func (l *lc) add(n int, before func(h *lcHandler, call int) error, after func(h 
 	l.mu.Lock()
 	l.hs = append(l.hs, h)
 	l.mu.Unlock()
-	l.r.AddHandler(h.name, h.topic, h.sub, fmt.Sprintf("%s/out%d", l.id, n), h.pub, l.w.handler(l.gate, nil))
+	return h
+}
+
+// add builds handler number n (mk) and registers it with the router.
+func (l *lc) add(n int, before func(h *lcHandler, call int) error, after func(h *lcHandler)) *lcHandler {
+	h := l.mk(n, before, after)
+	l.r.AddHandler(h.name, h.topic, h.sub, h.out, h.pub, l.w.handler(l.gate, nil))
 	return h
 }
 
@@ -678,4 +686,307 @@ func lcCloseBeforeRun(e *vlib.Env, nclosers, variant int, useGC bool) vlib.Resul
 	}
 	res.Sample = map[string]any{"cell": spec, "reached": reached, "handlers_started": nStarted, "messages_handled": handled, "closes": closeSummary(w)}
 	return res
+}
+
+// ---------------------------------------------------------------------------------------------
+// Refused API calls: a call that fails as documented must leave the close protocol untouched.
+//
+//   - AddHandler / AddNoPublisherHandler under a name that is taken: "DuplicateHandlerNameError is sent in a panic when you
+//     try to add a second handler with the same name" (the caller recovers it),
+//   - a second Run: returns the error "router is already running",
+//   - RunHandlers before Run: returns the error "you can't call RunHandlers on non-running router".
+//
+// The refused call is made before Run, while Run's start-up loop is parked (AddHandler then waits behind the start-up and is
+// refused afterwards), on the running idle router, or right before Close with a handler inside an invocation; then 1/2/8
+// Close callers follow. The oracle is the one of the whole package (every Close call and Run return, nil only when nothing
+// runs or starts later, subscribers and publishers closed): the statement has to hold as if the refused call had not been
+// made. A call that was accepted instead of refused makes the case 'unreached' (nothing is demanded of the refusal itself).
+
+var refusedCombos = []struct{ call, phase string }{
+	{"dup-AddHandler", "before-run"}, {"dup-AddNoPublisherHandler", "before-run"}, {"RunHandlers-before-Run", "before-run"},
+	{"dup-AddHandler", "never-run"}, {"dup-AddNoPublisherHandler", "never-run"}, {"RunHandlers-before-Run", "never-run"},
+	{"dup-AddHandler", "startup"}, {"dup-AddNoPublisherHandler", "startup"}, {"second-Run", "startup"},
+	{"dup-AddHandler", "running"}, {"dup-AddNoPublisherHandler", "running"}, {"second-Run", "running"},
+	{"dup-AddHandler", "before-close"}, {"dup-AddNoPublisherHandler", "before-close"}, {"second-Run", "before-close"},
+}
+
+func refusedRound() int { return len(refusedCombos) * len(closerCounts) * 2 }
+
+func refusedCells(tier string) int { return refusedRound() * vlib.TierN(tier, 1, 3) }
+
+// refusal is the record of one call that is expected to be refused. The fields are written by the calling goroutine before
+// its done channel is closed and read only after that.
+type refusal struct {
+	call    string
+	refused bool // failed the documented way
+	outcome string
+}
+
+// refusedCall makes one call in its own goroutine (a harness wait is never unconditional: the call may block, legitimately
+// behind the start-up loop, or for ever on a broken router).
+func (l *lc) refusedCall(call, taken string, j int) (*refusal, chan struct{}) {
+	rf := &refusal{call: call}
+	done := make(chan struct{})
+	var h *lcHandler
+	if strings.HasPrefix(call, "dup-") {
+		// own ends: should the router start this handler after all, it is in l.started() and gets a late probe like the others
+		h = l.mk(200+j, nil, nil)
+		h.name = taken + "(refused duplicate)"
+	}
+	fn := l.w.handler(l.gate, nil)
+	go func() {
+		defer close(done)
+		switch call {
+		case "dup-AddHandler", "dup-AddNoPublisherHandler":
+			func() {
+				defer func() {
+					v := recover()
+					if d, ok := v.(message.DuplicateHandlerNameError); ok && d.HandlerName == taken {
+						rf.refused = true
+					}
+					if v == nil {
+						rf.outcome = "returned normally"
+					} else {
+						rf.outcome = fmt.Sprintf("panic(%T: %v)", v, v)
+					}
+				}()
+				if call == "dup-AddHandler" {
+					l.r.AddHandler(taken, h.topic, h.sub, h.out, h.pub, fn)
+				} else {
+					l.r.AddNoPublisherHandler(taken, h.topic, h.sub, func(m *message.Message) error { _, err := fn(m); return err })
+				}
+			}()
+		case "second-Run":
+			err := l.r.Run(context.Background())
+			rf.refused = err != nil
+			rf.outcome = fmt.Sprintf("returned %v", err)
+		case "RunHandlers-before-Run":
+			err := l.r.RunHandlers(context.Background())
+			rf.refused = err != nil
+			rf.outcome = fmt.Sprintf("returned %v", err)
+		}
+	}()
+	return rf, done
+}
+
+type refusedCalls struct {
+	rfs   []*refusal
+	dones []chan struct{}
+}
+
+// tally: refused = returned the documented way, accepted = returned otherwise, pending = not returned.
+func (c *refusedCalls) tally() (refused, accepted, pending int, outcomes []string) {
+	for i, rf := range c.rfs {
+		if !vlib.IsClosed(c.dones[i]) {
+			pending++
+			outcomes = append(outcomes, rf.call+": not returned")
+			continue
+		}
+		if rf.refused {
+			refused++
+		} else {
+			accepted++
+		}
+		outcomes = append(outcomes, rf.call+": "+rf.outcome)
+	}
+	return
+}
+
+func lcRefused(e *vlib.Env, ri int) vlib.Result {
+	i := ri
+	combo := refusedCombos[i%len(refusedCombos)]
+	i /= len(refusedCombos)
+	nclosers := closerCounts[i%len(closerCounts)]
+	i /= len(closerCounts)
+	useGC := i%2 == 1
+	round := ri / refusedRound()
+	call, phase := combo.call, combo.phase
+
+	r := e.R
+	id := e.ID()
+	nh := r.Range(1, 3)
+	ncalls := 1
+	if round > 0 {
+		ncalls = r.Range(1, 2)
+	}
+	neverRun := phase == "never-run"
+	busy := phase == "before-close" || (!neverRun && r.Bool())
+	k := r.Intn(nh)
+	inSubscribe := r.Bool()
+	where := ""
+	if phase == "startup" {
+		where = fmt.Sprintf(" startUpParkedAtHandlerNo=%d park=%s", k, map[bool]string{true: "inside Subscribe", false: "router.runhandlers.started"}[inSubscribe])
+	}
+	timeout, tname := time.Hour, "1h"
+	wo := vlib.WaitOpts{Watchdog: vlib.WD.Watchdog, NoTimerCheck: []string{wgtFrame}}
+	if neverRun {
+		// the registered handlers are never started: the unchanged router reports the time-out, every call has to return
+		timeout, tname = 30*time.Millisecond, "30ms"
+		wo = shortWO()
+	}
+	spec := fmt.Sprintf("lifecycle=refused-call call=%s x%d phase=%s%s closers=%d sub=%s handlers=%d handlerBusyAtClose=%v closeTimeout=%s", call, ncalls, phase, where, nclosers, subKindName(useGC), nh, busy, tname)
+	res := vlib.Result{Class: "refused-call/" + phase + "/" + call, Spec: spec}
+	w := &world{msgs: map[string]*tracked{}, lenientRun: neverRun}
+	l, err := newLC(id, w, timeout, useGC)
+	if err != nil {
+		res.Verdict, res.Reason = vlib.HarnessError, err.Error()
+		return res
+	}
+	ctl := vlib.NewCtl(r.Uint64(), 0, 0)
+	defer ctl.Uninstall()
+	defer l.openGate()
+
+	subArrived, subRelease := make(chan struct{}), make(chan struct{})
+	var relOnce sync.Once
+	release := func() { relOnce.Do(func() { close(subRelease) }) }
+	defer release()
+	var before func(h *lcHandler, call int) error
+	var park *vlib.Park
+	if phase == "startup" {
+		if inSubscribe {
+			before = func(h *lcHandler, call int) error {
+				if call == k {
+					close(subArrived)
+					<-subRelease
+				}
+				return nil
+			}
+		} else {
+			park = ctl.ParkAt("router.runhandlers.started", func(a, b string) bool { return strings.HasPrefix(a, id+"/h") }, k)
+		}
+	}
+	var names []string
+	for n := 0; n < nh; n++ {
+		names = append(names, l.add(n, before, nil).name)
+	}
+	calls := &refusedCalls{}
+	makeCalls := func() {
+		for j := 0; j < ncalls; j++ {
+			rf, d := l.refusedCall(call, names[r.Intn(len(names))], j)
+			calls.rfs, calls.dones = append(calls.rfs, rf), append(calls.dones, d)
+			vlib.WaitClosed(d, wo) // returned, or blocked (behind the start-up / for ever)
+		}
+	}
+	finish := func(reached bool, blockedBehindStartup bool, t1 *tracked, closeCalled bool) vlib.Result {
+		refused, accepted, pending, outcomes := calls.tally()
+		nStarted := len(l.started())
+		res.Hooks = ctl.Counts()
+		res.NonTrivial = reached && refused > 0 && accepted == 0 && closeCalled
+		heldAtGate := t1 != nil && t1.entered.Load() != 0
+		res.Sig = vlib.Sig(spec, nStarted, refused, accepted, pending, blockedBehindStartup, heldAtGate, closeShape(w), ctl.Fingerprint())
+		res.Count("lifecycle_reached", b2i(reached))
+		res.Count("refused_calls_refused_as_documented", refused)
+		res.Count("refused_calls_accepted", accepted)
+		res.Count("refused_calls_not_returned", pending)
+		res.Count("refused_call_waited_behind_startup", b2i(blockedBehindStartup))
+		res.Count("handlers_started_in_all", nStarted)
+		res.Sample = map[string]any{"cell": spec, "reached": reached, "refused_calls": outcomes, "waited_behind_startup": blockedBehindStartup, "handlers_started": nStarted, "closes": closeSummary(w)}
+		if res.Verdict == "" && accepted > 0 {
+			res.Verdict = vlib.Unreached
+			res.Reason = fmt.Sprintf("the call was not refused the documented way (%v): %s", outcomes, spec)
+		} else if res.Verdict == "" && !reached {
+			res.Verdict = vlib.Unreached
+			res.Reason = "start-up park point not reached: " + spec
+		}
+		return res
+	}
+	accepted := func() bool { _, a, _, _ := calls.tally(); return a > 0 }
+
+	if neverRun {
+		makeCalls()
+		if accepted() {
+			l.teardown(wo)
+			return finish(true, false, nil, false)
+		}
+		waitReturn(&res, "Close", l.closers(nclosers), wo, spec) // CloseTimeout is 30ms: every call has to return on its own
+		if o, d := vlib.Settle(wo); o == vlib.Inconclusive {
+			res.Inconclusive("not quiescent at the end")
+			res.Witness = vlib.Trunc(d, 60000)
+		}
+		if !res.Failed() && res.Verdict == "" {
+			waitReturn(&res, "Close", l.closers(1), wo, spec) // repeated Close
+		}
+		judge(w, &res, spec, false)
+		l.teardown(wo)
+		return finish(true, false, nil, true)
+	}
+
+	if phase == "before-run" {
+		makeCalls()
+	}
+	runDone := l.goRun(context.Background())
+	reached, blockedBehindStartup := true, false
+	if phase == "startup" {
+		arrived := func() bool {
+			if park != nil {
+				return park.HasArrived()
+			}
+			return vlib.IsClosed(subArrived)
+		}
+		oc, _ := vlib.WaitUntil(func() bool { return arrived() || vlib.IsClosed(runDone) }, wo)
+		reached = arrived()
+		if !reached && oc == vlib.Inconclusive {
+			res.Inconclusive("start-up neither reached the park point nor quiescent")
+		}
+		if reached {
+			makeCalls()
+			_, _, pending, _ := calls.tally()
+			blockedBehindStartup = pending > 0
+		}
+		release()
+		if park != nil {
+			park.Release()
+		}
+		for _, d := range calls.dones {
+			vlib.WaitClosed(d, wo)
+		}
+	}
+	// on the unchanged router Run is up now; if it is not, the Close calls below still have to return
+	running, _ := vlib.WaitClosed(l.r.Running(), wo)
+	if phase == "running" {
+		makeCalls()
+	}
+	var t1 *tracked
+	emit := func() {
+		if st := l.started(); len(st) > 0 {
+			t1 = l.emit(st[r.Intn(len(st))], id+"/m1")
+			vlib.WaitUntil(func() bool { return t1.entered.Load() != 0 }, wo)
+		}
+	}
+	if phase == "before-close" {
+		emit()
+		makeCalls()
+	} else if busy && running == vlib.Done {
+		emit()
+	}
+	if accepted() {
+		// an accepted extra handler is never started: a Close with CloseTimeout 1h would legitimately wait for it
+		l.teardown(wo)
+		return finish(reached, blockedBehindStartup, t1, false)
+	}
+	closersDone := l.closers(nclosers)
+	vlib.WaitClosed(closersDone, wo) // returned, or waiting for the handler held at the gate
+	heldAtGate := t1 != nil && t1.entered.Load() != 0 && t1.exited.Load() == 0
+	closeWaited := heldAtGate && !vlib.IsClosed(closersDone)
+	l.openGate()
+	waitReturn(&res, "Close", closersDone, wo, spec)
+	waitReturn(&res, "Run", runDone, wo, spec)
+	if o, d := vlib.Settle(wo); o == vlib.Inconclusive {
+		res.Inconclusive("not quiescent at the end")
+		res.Witness = vlib.Trunc(d, 60000)
+	}
+	if !res.Failed() && res.Verdict == "" {
+		waitReturn(&res, "Close", l.closers(1), wo, spec) // repeated Close on the closed router
+	}
+	if !res.Failed() && res.Verdict == "" {
+		l.lateProbes(&res, wo)
+	}
+	judge(w, &res, spec, true)
+	if !res.Failed() && res.Verdict == "" {
+		l.closedEnds(&res, spec)
+	}
+	l.teardown(wo)
+	res.Count("handler_held_while_close_pending", b2i(heldAtGate))
+	res.Count("close_waited_for_held_handler", b2i(closeWaited))
+	return finish(reached, blockedBehindStartup, t1, true)
 }
